@@ -35,5 +35,7 @@ SEEDED = [
     ("C07-9", "C07-USE"),
     ("C07-10", "C07-USE"),
     ("C07-11", "C07-ATT"),
+    ("C07-12", "C07-MEMO"),
+    ("C07-13", "C07-ATT"),
 ]
 MUTANTS = list(MUTANTS) + [_P("seed-" + sid, _os.path.join(_SEEDS, sid, "patch.diff"), rule) for sid, rule in SEEDED if _os.path.exists(_os.path.join(_SEEDS, sid, "patch.diff"))]
